@@ -15,7 +15,7 @@ for line in open(os.path.join(VERIF, "properties.jsonl")):
         prev.append(m.get("change", ""))
     others = []
     if int(rnd) >= 10:
-        for d in sorted(glob.glob(os.path.join(VERIF, "seeded", "C*_r[89]"))):
+        for d in sorted(glob.glob(os.path.join(VERIF, "seeded", "C*_r[891]*"))):
             m = json.load(open(os.path.join(d, "meta.json")))
             if m["property"] != pid:
                 others.append(m.get("change", "")[:150])
